@@ -20,7 +20,7 @@ RULE = ("Constructor inputs as plain data x one global duration setting (readout
         "..._multi_round_circuit ('multi', rounds = distinct counts from 0..5) with distance, data/ancilla bits, cycles, "
         "description route {none, from_chain, from_initial_state, from_connectivity(sub-chain of the three shipped "
         "layouts), composite description = such a sub-chain with 1-3 excluded gates / an excluded ancilla, which yields "
-        "parking-only gate layers} and refocusing on/off as in C09, and construct_calibration_circuit (QUBIT / QUTRIT, 1..6 qubits on "
+        "parking-only gate layers} and refocusing on/off as in C09 (a third of the cases prepares data / ancilla qubits in any of the six initial states 0 1 + - +i -i), and construct_calibration_circuit (QUBIT / QUTRIT, 1..6 qubits on "
         "arbitrary distinct channel indices). duration_grid enumerates all 4^4 settings over {0.5,1,2,3} for a fixed d=2, "
         "3-cycle chain (full constructor, refocusing on) completely; cycle_sweep enumerates cycles 0..6 (thorough 0..8) x "
         "{full, simplified} x refocusing on/off x 3 (thorough 5) fixed duration settings for a d=3 chain. Each case builds the circuit inside the override "
@@ -154,7 +154,7 @@ def classes_of(case):
     if case["ctor"] == "calibration":
         out += [f"cal={case['cal_type']}", f"cal_qubits={len(case['indices'])}"]
     else:
-        out += [f"desc={case['desc']}", f"refocus={case['refocus']}", f"d={case['d']}"]
+        out += [f"desc={case['desc']}", f"refocus={case['refocus']}", f"d={case['d']}", f"six_states={bool(case.get('data_states'))}"]
         if case["ctor"] == "multi":
             out += [f"rounds_len={len(case['rounds'])}", f"rounds_has0={0 in case['rounds']}"]
         else:
@@ -263,6 +263,12 @@ def _repcode_strategy(ctor, max_d, max_cycles):
         data = None if omit else draw(st.lists(st.integers(0, 1), min_size=d, max_size=d))
         anc = None if (omit or draw(st.booleans())) else draw(st.lists(st.integers(0, 1), min_size=d - 1, max_size=d - 1))
         case.update(d=d, data=data, anc=anc, desc=desc, refocus=refocus)
+        if data is not None and draw(st.integers(0, 2)) == 0:
+            # superposition states: each brings its own preparation gate (kind and duration key) into the circuit
+            six = st.sampled_from(["ZERO", "ONE", "PLUS", "MINUS", "PLUS_I", "MINUS_I"])
+            case["data_states"] = draw(st.lists(six, min_size=d, max_size=d))
+            if anc is not None:
+                case["anc_states"] = draw(st.lists(six, min_size=d - 1, max_size=d - 1))
         if ctor == "multi":
             n_rounds = draw(st.sampled_from([1, 2, 2, 3, 3]))
             case["rounds"] = list(draw(st.permutations(list(range(0, max_cycles + 1)))))[:n_rounds]
